@@ -31,6 +31,14 @@ type Reply struct {
 	Sizes   []int  `json:"sizes,omitempty"`        // 1.1 chunk sizes
 	LFAfter bool   `json:"lf_after_eom,omitempty"` // 1.0: the server sends a LF after the delimiter
 	Cuts    []int  `json:"cuts,omitempty"`         // forced read boundaries (offsets into the framed reply)
+	// big replies ('bigbuf' family) are not spelled out: payload and chunk sizes are a pure function of
+	// (BigSeed, BigLen, Plan, message-id, version), see materialize
+	BigLen  int    `json:"big_len,omitempty"`
+	BigSeed int64  `json:"big_seed,omitempty"`
+	Plan    string `json:"chunk_plan,omitempty"` // one | 4k | few | many | edges | mixed
+	// Trailer is the payload of a further server message (no message-id, or an old one) that follows
+	// the reply at once as a separate, marked server message
+	Trailer string `json:"trailer,omitempty"`
 }
 
 // DrvSession is the descriptor of a driver-level case.
@@ -47,6 +55,89 @@ type DrvSession struct {
 }
 
 const firstMsgID = 101
+
+// materialize fills Payload and Sizes of a big reply.
+func (rp *Reply) materialize(version string, id int) {
+	if rp.BigLen == 0 || rp.Payload != "" {
+		return
+	}
+	for k := int64(0); ; k++ {
+		r := rand.New(rand.NewSource(rp.BigSeed + k))
+		rp.Payload, rp.Variant = GenPayload(r, PayloadCfg{ID: id, BodyLen: rp.BigLen, HashLines: false, V10: version == "1.0"})
+		rp.Mode = rp.Plan
+		if version == "1.0" {
+			return
+		}
+		p := rp.Payload
+		switch rp.Plan {
+		case "one":
+			rp.Sizes = []int{len(p)}
+		case "4k":
+			var cuts []int
+			for c := 4096; c < len(p); c += 4096 {
+				x := c
+				for x+1 < len(p) && p[x] == '#' && p[x+1] == '#' {
+					x--
+				}
+				cuts = append(cuts, x)
+			}
+			rp.Sizes = ncwire.Partition(len(p), cuts)
+		default:
+			rp.Sizes = GenSizes(r, p, rp.Plan, true)
+		}
+		if wireOK11(rp.frame("1.1")) {
+			return
+		}
+	}
+}
+
+func frameTrailer(version, payload string, lf bool) []byte {
+	if version == "1.1" {
+		return ncwire.EncodeChunked([]byte(payload), nil)
+	}
+	raw := ncwire.EncodeEOM([]byte(payload))
+	if lf {
+		raw = append(raw, '\n')
+	}
+	return raw
+}
+
+// GenBigSession draws one session of the 'bigbuf' family: replies of 64 KiB … 300 KiB, each followed
+// at once by another server message, so that a receive buffer that is reused after a reply was filed
+// is overwritten while the caller still decodes.
+func GenBigSession(r *rand.Rand, k int) DrvSession {
+	s := DrvSession{Family: "bigbuf", Version: []string{"1.0", "1.1"}[k%2], Caps: []string{"only", "both"}[r.Intn(2)]}
+	s.Echo = r.Intn(4) == 0
+	s.ReadDelayUS = []int{0, 50, 250}[(k/2)%3]
+	s.ReadSize = []int{8192, 65535}[r.Intn(2)]
+	s.Seg = []devsim.Seg{{Mode: "whole"}, {Mode: "fixed", Size: 4096}, {Mode: "fixed", Size: 1000}, {Mode: "mix", Size: 1000}, {Mode: "geom", Size: 16000}}[r.Intn(5)]
+	s.Seg.Seed = r.Int63()
+	n := 5 + r.Intn(6)
+	for i := 0; i < n; i++ {
+		rp := Reply{API: []string{"get", "rpc", "getconfig"}[r.Intn(3)], BigSeed: r.Int63(), LFAfter: r.Intn(2) == 0}
+		switch {
+		case i > 0 && r.Intn(5) == 0:
+			rp.BigLen = 50 + r.Intn(2000) // a small reply in a buffer that has been big before
+		case r.Intn(4) == 0:
+			rp.BigLen = 120000 + r.Intn(180000)
+		default:
+			rp.BigLen = 66000 + r.Intn(54000)
+		}
+		rp.Plan = []string{"one", "4k", "one", "4k", "few", "many", "edges", "mixed"}[r.Intn(8)]
+		body := genText(r, 200+r.Intn(3000), false)
+		if r.Intn(2) == 0 {
+			rp.Trailer = `<notification xmlns="urn:ietf:params:xml:ns:netconf:notification:1.0"><eventTime>2026-10-04T00:00:00Z</eventTime><event>` + body + `</event></notification>`
+		} else {
+			// an unsolicited reply with an id that is not waited for (any more)
+			rp.Trailer = `<rpc-reply xmlns="urn:ietf:params:xml:ns:netconf:base:1.0" ` + fmt.Sprintf(`message-id="%d">`, firstMsgID-1-r.Intn(50)) + body + `</rpc-reply>`
+		}
+		if strings.Contains(rp.Trailer, "\n##") {
+			rp.Trailer = strings.ReplaceAll(rp.Trailer, "\n##", "\n#.#")
+		}
+		s.Replies = append(s.Replies, rp)
+	}
+	return s
+}
 
 func (rp Reply) frame(version string) []byte {
 	if version == "1.1" {
@@ -235,6 +326,10 @@ type span struct{ start, end int }
 
 // RunDrv drives the real NETCONF driver through the session and judges every reply.
 func RunDrv(s DrvSession) mon.Result {
+	s.Replies = append([]Reply(nil), s.Replies...)
+	for i := range s.Replies {
+		s.Replies[i].materialize(s.Version, firstMsgID+i)
+	}
 	caps := []string{ncsim.Cap10}
 	if s.Version == "1.1" {
 		caps = []string{ncsim.Cap11}
@@ -272,6 +367,10 @@ func RunDrv(s DrvSession) mon.Result {
 		c.Emit(raw[prev:])
 		c.Mark() // no read carries bytes of two server messages
 		spans = append(spans, span{start, start + len(raw)})
+		if t := s.Replies[i].Trailer; t != "" {
+			c.Emit(frameTrailer(s.Version, t, s.Replies[i].LFAfter))
+			c.Mark()
+		}
 	}
 	conn := devsim.NewConn(srv, devsim.Config{Seg: s.Seg, KeepData: true})
 	defer conn.Abandon()
@@ -401,6 +500,13 @@ func RunDrv(s DrvSession) mon.Result {
 		}
 		// observations
 		obs["driver_replies"]++
+		if rp.Trailer != "" {
+			obs["replies_followed_at_once_by_another_server_message"]++
+			if sp.end-sp.start >= 65536 {
+				obs["replies_of_64KiB_or_more_followed_by_another_message"]++
+				nontrivial = true
+			}
+		}
 		if carries {
 			obs["driver_replies_with_rpc_error"]++
 		}
